@@ -1291,12 +1291,12 @@ func (h *Handler) handleSignatureHelp(params json.RawMessage) (*SignatureHelp, e
 // getFunctionAtPosition finds the function name and parameter index at a position
 func (h *Handler) getFunctionAtPosition(content string, pos Position) (string, int) {
 	lines := strings.Split(content, "\n")
-	if pos.Line >= len(lines) {
+	if pos.Line < 0 || pos.Line >= len(lines) {
 		return "", 0
 	}
 
 	line := lines[pos.Line]
-	if pos.Character > len(line) {
+	if pos.Character < 0 || pos.Character > len(line) {
 		return "", 0
 	}
 
@@ -1586,11 +1586,11 @@ func (h *Handler) getCodeActionsForDiagnostic(uri string, diag Diagnostic) []Cod
 		content, ok := h.server.Documents().GetContent(uri)
 		if ok {
 			lines := strings.Split(content, "\n")
-			if diag.Range.Start.Line < len(lines) {
+			if diag.Range.Start.Line >= 0 && diag.Range.Start.Line < len(lines) {
 				line := lines[diag.Range.Start.Line]
 				start := diag.Range.Start.Character
 				end := diag.Range.End.Character
-				if start < len(line) && end <= len(line) && start < end {
+				if start >= 0 && start < len(line) && end <= len(line) && start < end {
 					word := line[start:end]
 					upper := strings.ToUpper(word)
 					if word != upper {
